@@ -1,5 +1,7 @@
 import Efp.Model.TimeBuilders
 import Efp.Proofs.Series
+import Efp.Proofs.DailyVolume
+import Mathlib.Tactic.FieldSimp
 /-!
 # C20 — hourly-series builders produce exactly the requested time line
 
@@ -73,6 +75,43 @@ theorem fromFrequency_sorted (start : Int) (n : Nat) (volume : Rat) (f : Freq) (
   rw [List.map_map]
   refine List.Pairwise.map _ (fun a b (h : a < b) => ?_) List.pairwise_lt_range
   simp only [Function.comp]; omega
+
+/-! ## a daily volume spread over chosen hours sums to that volume on every full day -/
+
+theorem hourOfDay_of_whole_hour (m : Int) : hourOfDay (3600 * m) = m % 24 := by
+  unfold hourOfDay; omega
+
+theorem fromDailyVolume_get (start : Int) (n : Nat) (vol : Rat) (hours : List Int) (i : Nat) (hi : i < n) :
+    (fromDailyVolume start n vol hours)[i]? =
+      some (start + 3600 * (i : Int),
+            if hours.contains (hourOfDay (start + 3600 * (i : Int))) then vol / (hours.length : Rat) else 0) := by
+  unfold fromDailyVolume fromFrequency
+  simp [hi, matchesAt]
+
+/-- **`create_hourly_usage_from_daily_volume_and_list_of_hours`**: for duplicate-free hours within
+0..23 (the hypothesis the proof needs — finding D12 otherwise), a series starting on a whole hour
+carries exactly the daily volume on any 24 consecutive hours it contains, in particular on every
+full calendar day -/
+theorem dailyVolume_sum_full_day (q : Int) (n : Nat) (vol : Rat) (hours : List Int)
+    (hnd : hours.Nodup) (hrange : ∀ h ∈ hours, 0 ≤ h ∧ h < 24) (hne : hours ≠ [])
+    (i0 : Nat) (hwin : i0 + 24 ≤ n) :
+    ((List.range 24).map (fun (j : Nat) =>
+        (((fromDailyVolume (3600 * q) n vol hours)[i0 + j]?).map Prod.snd).getD 0)).sum = vol := by
+  have hlen : (hours.length : Rat) ≠ 0 := by
+    have : 0 < hours.length := List.length_pos_iff.mpr hne
+    exact_mod_cast (Nat.pos_iff_ne_zero.mp this)
+  have hval : ∀ j ∈ List.range 24,
+      (((fromDailyVolume (3600 * q) n vol hours)[i0 + j]?).map Prod.snd).getD 0
+        = if hours.contains (((q + (i0 : Int)) + (j : Int)) % 24) then vol / (hours.length : Rat) else 0 := by
+    intro j hj
+    have hj' : j < 24 := List.mem_range.mp hj
+    rw [fromDailyVolume_get _ _ _ _ (i0 + j) (by omega)]
+    simp only [Option.map_some, Option.getD_some]
+    have : (3600 * q + 3600 * ((i0 + j : Nat) : Int)) = 3600 * ((q + (i0 : Int)) + (j : Int)) := by push_cast; ring
+    rw [this, hourOfDay_of_whole_hour]
+  rw [List.map_congr_left hval]
+  rw [full_day_sum (q + (i0 : Int)) hours hnd hrange (vol / (hours.length : Rat))]
+  field_simp
 
 /-! ## calendar facts used by the predicates -/
 
